@@ -25,7 +25,7 @@ func main() {
 		"'no leader' updates with old and new terms; duplicates); delivered in EVERY permutation when it has <= 6 updates (each permutation once one update per call and once in random groups with " +
 		"re-deliveries), in 40 seeded permutations otherwise, and 9 times through 2- and 3-view gossip scripts (direct updates, node-local Raft info picked up by LocalState, exchanges in random " +
 		"order, delayed payloads); additionally every sequence of length <= L over a 12-letter single-shard alphabet. A multiset is non-trivial when one shard has >= 2 terms, an update naming a leader and a no-leader update " +
-		"carrying that shard's highest term, and the multiset contains a duplicate; distinct by hash of the sorted multiset. Layer 2: 3-node cluster, leader transfers, every ResponseHeader monitored per (observer, node, shard)")
+		"carrying that shard's highest term, and the multiset contains a duplicate; distinct by hash of the sorted multiset. Layer 2: 3-node cluster, leader transfers, every ResponseHeader (unary calls and every message of multi-message range streams that stay open across a leader change) monitored per (observer, node, shard)")
 	r.Assume("multisets are Raft-consistent: two updates with the same term never name different leaders; two updates with the same config-change index carry the same replicas; a named leader has term >= 1; config-change index 0 means 'no membership known yet' (dragonboat's pending ShardInfo)",
 		"replicas compare by content (nil and empty are the same membership)",
 		"live layer: after each batch of transfers, unassisted convergence of the headers to Raft's (term, leader) is awaited with a 3 s watchdog; its expiry is counted as inconclusive, never as a violation; the view is then refreshed explicitly (Cluster.Notify, the same merge LocalState performs on every memberlist push/pull) and must name Raft's leader afterwards - that part is decided without a clock",
@@ -112,6 +112,7 @@ func main() {
 	r.FloorCount("live_episodes_settled", int64(r.Pick(3, 35)))
 	r.FloorCount("live_headers_observed", int64(r.Pick(1000, 10000)))
 	r.FloorCount("live_transfers_completed", int64(r.Pick(10, 150)))
+	r.FloorCount("live_stream_probes_with_midstream_term_change", int64(r.Pick(2, 25)))
 	r.FloorDistinct("live_table_shard_terms_in_headers", int64(r.Pick(8, 120)))
 	r.Finish()
 }
